@@ -69,3 +69,13 @@ package actionlint
 //@   props C10
 //@   at_call (*LocalReusableWorkflowCache).readCache: key == spec0
 //@   at_call (*LocalReusableWorkflowCache).writeCache: key == spec0
+
+// C20: "never more tool processes run at once than the machine has CPUs": all files of a run share one
+// process pool, created once by LintFiles (not per file, not inside the per-file goroutine)
+//@ func (*Linter).LintFiles
+//@   loop "range filepaths":
+//@     body_calls [C20] newConcurrentProcess iff false
+//@   loop "range ws":
+//@     body_calls [C20] newConcurrentProcess iff false
+//@ func (*Linter).LintFiles$1
+//@   forbid_call [C20] newConcurrentProcess
